@@ -679,4 +679,61 @@ def travStep (dataLen itemLen idx : Nat) : Out Nat × Nat :=
 def travTrace (dataLen itemLen : Nat) : Option (List (Out Nat)) :=
   run (travStep dataLen itemLen) (compLen dataLen itemLen + 1) 0
 
+/-! ## the depth / node budget of the Debug printer (`read-fonts/src/traversal.rs` `DebugGuard`)
+
+`DEBUG_STATE: thread_local Cell<(depth, nodes)>`.  `DebugGuard::enter`: a call at `depth == 0` is a
+top-level call and starts with a fresh node count; `None` (printed as `..`, state untouched) when
+`depth >= MAX_DEBUG_DEPTH` or `nodes >= MAX_DEBUG_NODES`; otherwise `(depth + 1, nodes + 1)`.
+`Drop`: `depth - 1` (saturating), `nodes` unchanged.  A table / array is printed by entering, printing
+its children in order, leaving. -/
+
+def MAX_DEBUG_DEPTH : Nat := 64
+def MAX_DEBUG_NODES : Nat := 1048576
+
+/-- the thread-local state -/
+structure DbgSt where
+  depth : Nat
+  nodes : Nat
+  deriving Repr, DecidableEq
+
+/-- `DebugGuard::enter`: `(entered?, new state)` -/
+def dbgEnter (s : DbgSt) : Bool × DbgSt :=
+  let nodes := if s.depth = 0 then 0 else s.nodes
+  if s.depth ≥ MAX_DEBUG_DEPTH ∨ nodes ≥ MAX_DEBUG_NODES then (false, s)
+  else (true, ⟨s.depth + 1, nodes + 1⟩)
+
+/-- `Drop for DebugGuard` -/
+def dbgLeave (s : DbgSt) : DbgSt := ⟨s.depth - 1, s.nodes⟩
+
+/-- what is printed: the tree of tables / arrays reachable through offsets (shared targets appear once
+per path) -/
+inductive DTree where
+  | node (kids : List DTree)
+
+mutual
+/-- `DebugPrintTable::fmt` / `DebugPrintArray::fmt`: the output is the pre-order list of
+"printed in full" (`true`) / "printed as `..`" (`false`) marks -/
+def dbgPrint (s : DbgSt) : DTree → DbgSt × List Bool
+  | .node kids =>
+    match dbgEnter s with
+    | (false, s') => (s', [false])
+    | (true, s') =>
+      let r := dbgPrintAll s' kids
+      (dbgLeave r.1, true :: r.2)
+def dbgPrintAll (s : DbgSt) : List DTree → DbgSt × List Bool
+  | [] => (s, [])
+  | t :: ts =>
+    let r := dbgPrint s t
+    let r2 := dbgPrintAll r.1 ts
+    (r2.1, r.2 ++ r2.2)
+end
+
+/-- a sequence of top-level `{:?}` calls on one thread: the outputs, in order -/
+def dbgCalls : DbgSt → List DTree → DbgSt × List (List Bool)
+  | s, [] => (s, [])
+  | s, t :: ts =>
+    let r := dbgPrint s t
+    let r2 := dbgCalls r.1 ts
+    (r2.1, r.2 :: r2.2)
+
 end FontVerif.HandIter
